@@ -1,25 +1,33 @@
 """C13 - state grids are well formed and refinement nests them.
 
-Mode: explicit-state search. A state is a grid (axes, h, origin_coordinate, truncations); the only transition is the real
-`grid.refine()`. Every case is one constructor call of the real library (a JSON-able spec) and `core.bfs` explores the
-history graph `[] -> [refine] -> [refine, refine] -> ...` up to the stated depth on FRESH objects (the constructor is
-called again and the history replayed for every state), evaluating the state invariants in every reached state and the
-transition invariants on every edge.
+Mode: explicit-state search. A state is a grid (axes, h, origin_coordinate, truncations); the transitions are the real
+`grid.refine()` (sub "grid") and, for the histories on a re-used model (sub "mhist"), the public operations that change a
+model's Levy measure in place followed by another constructor call. Every case is a JSON-able spec; `core.bfs` explores the
+history graph `[] -> [refine] -> [refine, refine] -> ...` up to the stated depth on FRESH objects (the constructor is called
+again and the history replayed for every state), evaluating the state invariants in every reached state and the transition
+invariants on every edge.
 
 Alphabet (complete enumeration, nothing sampled)
   constructors   CTMCUniformGrid(h, model, p), CTMCUniformGrid.create_from_fixed_nb_of_points(h, n, dimension),
                  CTMCGridGeometric(h, model, n_side, p), CTMCGridGeometric.create_with_bounds(h, bounds, dimension, n_side),
                  CTMCGridProbabilityStep(h, model, p_min, dimension), CTMCCredit(h, a, model, symmetric) and the base
                  constructor CTMCGrid(h, origin, axes) with per-axis arrays of different lengths (per-axis storage)
-  models         every 1-d model of mc.alphabets.model_specs(tier) (Levy and exponential), every copula model of
-                 mc.alphabets.copula_model_specs(tier) (dimension 2 and 3)
+  models         every 1-d model of mc.alphabets.model_specs(tier) (Levy and exponential), with its "reinit" twin
+                 (mc.alphabets.with_reinit: same parameter values reached through a donor parameter object, attribute
+                 re-assignment and initialisation(); quick: the first parameter set of every family x representation,
+                 thorough: all); every copula model of mc.alphabets.copula_model_specs(tier) (dimension 2 and 3); SDE models
+                 (HIST_WRAPPED: LevyDrivenSDEModel and the forward market model of model/utils.py, driven by a 1-d Levy model
+                 and by a 2-d copula model) for the constructors that accept them (uniform, geometric): the constructor reads
+                 the measure(s) of the driver
   arguments      mc.alphabets.grid_specs(tier, dimension) plus the extras listed in `_extra_model_grids` (credit thresholds as
                  pairs / triples, asymmetric 1-d credit, a geometric grid at a low truncation probability)
   depth          3 refinements (quick) / 5 (thorough; 4 for the probability-step grid whose middle() is a root search)
 
 State invariants (every state, every axis)
   finite; strictly increasing; value 0.0 at origin_coordinate; left neighbour -h, right neighbour +h;
-  truncations[k] == (axis[0], axis[-1]); end points == what the constructor promised:
+  truncations[k] == (axis[0], axis[-1]); the grid's own accessors read at its origin coordinate in every state of the history
+  (grid[origin_coordinate], left_point, right_point, number_of_points(), dimension) agree with the axes;
+  at depth 0: h is the requested step, one axis per dimension, end points == what the constructor promised:
     uniform / geometric / credit : the roots of the tail-mass equation at the requested probability, verified by QUADRATURE OF
          THE MODEL'S OWN DENSITY (mc.oracle.integrate_density), not by the library's closed forms:
          tail(b)/I == 1-p with I = nu((h/2, inf)) resp. nu((-inf, -h/2)); for a copula model the bound is the outermost of
@@ -36,21 +44,50 @@ Transition invariants (every edge old -> new, every axis)
   len(new) == 2 len(old) - 1; new[2i] == old[i] (exactly); old[i] < new[2i+1] < old[i+1]; new[2i+1] == the OLD grid's own
   middle(old[i], old[i+1]) evaluated on the old grid before the call; h halved; origin index doubled; truncations unchanged;
   axes that were equal (shared storage `[axis] * dimension`) stay equal, i.e. no axis is refined twice.
+Several grids alive at once (sub-check "twin", every "grid" case): two grids built from the same arguments and the SAME model
+  object, and a deep copy of the first: equal at construction; refine() of one leaves the other two untouched; the three
+  refinements agree (no state shared through class attributes, interned coordinates or remembered arrays).
 Observations (recorded, never asserted): the coordinate object captured before refine() is mutated in place (aliasing);
   create_from_fixed_nb_of_points(n even) returns n+1 points; the probability grid's middle splits the gap's mass equally.
 
+Histories on ONE model object (sub "mhist"; violation keys `C13:history-<sub-check>:...:after-<mutation>`)
+  A constructor promises its tail probability for the measure the model has AT THE TIME OF THE CALL. A case is (model, h, p,
+  first constructor); the words `(new, first) (mutation, constructor) ...` of length `depth` (quick 2, and 3 for one CGMY
+  model; thorough 3) over the full product mutation x constructor are enumerated completely, each on one model object.
+    constructors  1-d: uniform, geometric(n_side 3), credit, probability(p_min 0.2); copula: uniform, geometric,
+                  credit symmetric / asymmetric; SDE-wrapped models: uniform, geometric. All with the same (h, p) (credit:
+                  compute_truncation's default p); credit thresholds -1.25h, -1.5h, -1.75h (skipped, counted, when the
+                  density says they are not inside (l, -h))
+    mutations     again (nothing changed) | refine-previous (the grid built before is refined) | other-h (the same model
+                  is used for a grid of step h/2 in between, itself checked) | set-params (another parameter set of the
+                  family assigned attribute by attribute on the model's own parameter object + initialisation(); copula:
+                  first / last margin) | truncate (model.truncate_levy_measure with (0.6 l, 0.7 r) of the previous grid's
+                  reported bounds; copula: all margins through the copula model, or the last margin alone) | other-object
+                  (a SECOND model object of the same class with the donor parameters is used with the same constructor,
+                  h, p in between, itself checked) | deepcopy-set-params / deepcopy-truncate (the history goes on with a
+                  copy.deepcopy of the model, as the chain constructors do, then mutated)
+    models        HIST_MODELS (HEM, Merton, VG, CGMY y = -0.5, 0.5, 1.2, exponential HEM and CGMY), HIST_CMODELS (2-d and
+                  3-d copula models), HIST_WRAPPED; (h, p) = (0.1, 0.99999); (0.05, 0.999) for CGMY 0.5 (quick) / all (thorough)
+    oracle        every grid of the word is judged like a grid of a new model: state invariants and promises, the tail and
+                  per-step masses by quadrature of the model's CURRENT density (split at the cuts applied); and it is
+                  compared (rtol 1e-9) with the grid the same constructor returns for a NEW model object built directly in
+                  the same state (sub-check "fresh": parameters passed to the model constructor, same cuts applied).
 Outside the alphabet (statement silent): credit thresholds that are not strictly between the left truncation and -h (the
   constructor's formula needs l < a < -h; such specs are counted as `skipped_credit_threshold_outside_(l,-h)`), constructor
   argument validation (covered by the repository's test_grid), nb_of_points_on_each_side < 2, more than 1e8 points, bounds
-  for create_with_bounds within h of the origin, grids whose axes are passed in malformed to the base constructor.
+  for create_with_bounds within h of the origin, grids whose axes are passed in malformed to the base constructor,
+  CTMCCredit / CTMCGridProbabilityStep for SDE models (not declared), a probability-step grid whose model is changed AFTER
+  the construction (its middle() keeps a reference to the measure; the statement ties refine() to the grid's own middle()),
+  changes of a model through private attributes.
 Refusal: a ValueError (the library's argument-validation exception) raised by a constructor is accepted as "no grid returned"
   only for the input class in which no well-formed grid with the promised end points exists (a tail-mass root within h of
   the origin; a symmetric credit grid whose mirror point -a+eps lies beyond the right root) and is counted
   (`constructor_refuses_arguments_without_well_formed_grid`); any other exception, or a ValueError in any other input
   class, is a violation.
 Time axis: rpylib/grid/time.py has no origin, h, truncation or refine(); only the clauses of the statement that have a
-  meaning for it are evaluated (sub "time": strictly increasing, finite, len == num, end points == the start/end it reports)
-  for start < end and num >= 2.
+  meaning for it are evaluated (sub "time": strictly increasing, finite, len == num, end points == the start/end it reports,
+  reported num and step agree with the axis) for start < end and num >= 2, with a second object of the same class built
+  with other arguments and read in between.
 """
 from __future__ import annotations
 
@@ -66,8 +103,10 @@ PID = "C13"
 LEVEL = "model_checking"
 RULE = (
     "every (constructor, argument tuple, model) of the stated menus is built by the real constructor and its refine() history "
-    "graph is searched breadth-first to the stated depth on fresh objects; a case is non-trivial when at least one state "
-    "invariant bundle and one refine() edge were evaluated on it (time-axis cases: the axis was compared with the reference); "
+    "graph is searched breadth-first to the stated depth on fresh objects; every word (mutation of the model's measure, "
+    "constructor) of the stated length is run on one re-used model object and every grid of it is judged against the "
+    "model's current density; a case is non-trivial when at least one state invariant bundle and one refine() edge (history "
+    "cases: one complete word) were evaluated on it (time-axis cases: the axis was compared with the reference); "
     "distinct = distinct case dict"
 )
 ASSUMPTIONS = [
@@ -77,6 +116,9 @@ ASSUMPTIONS = [
     "the new state to 'the point the grid itself uses as cell boundary', not to the arithmetic mean",
     "states are merged when (axes, h, origin_coordinate, truncations) agree: refine() reads nothing else (the probability "
     "grid's middle also reads levy_measure / intensity_of_jumps, which no method writes)",
+    "a model whose parameters were re-assigned (followed by initialisation()) or whose measure was truncated through the public "
+    "truncate_levy_measure is a model of the quantifier; the grid promised for it is the one for its measure at the time of "
+    "the constructor call (the density the model itself reports then)",
 ]
 CHUNK = 2
 
@@ -120,16 +162,71 @@ def _extra_model_grids(tier, dimension):
     return out
 
 
+HIST_MODELS = [
+    {"family": "hem", "exp": False, "params": {}},
+    {"family": "merton", "exp": False, "params": {}},
+    {"family": "vg", "exp": False, "params": {}},
+    {"family": "cgmy", "exp": False, "params": {"c": 1.0, "g": 15.0, "m": 20.0, "y": -0.5}},
+    {"family": "cgmy", "exp": False, "params": {"c": 1.0, "g": 15.0, "m": 20.0, "y": 0.5}},
+    {"family": "cgmy", "exp": False, "params": {"c": 1.0, "g": 15.0, "m": 20.0, "y": 1.2}},
+    {"family": "hem", "exp": True, "params": {}, "r": 0.02, "d": 0.0, "spot": 100.0},
+    {"family": "cgmy", "exp": True, "params": {"c": 1.0, "g": 15.0, "m": 20.0, "y": 0.5}, "r": 0.02, "d": 0.0, "spot": 100.0},
+]
+HIST_CMODELS = [
+    {"margins": ["hem", "vg"], "copula": {"kind": "clayton", "theta": 0.7, "eta": 0.3}},
+    {"margins": ["cgmy05", "cgmy12"], "copula": {"kind": "independent"}},
+    {"margins": ["hem", "vg", "cgmy05"], "copula": {"kind": "dependent"}},
+]
+HIST_WRAPPED = [
+    {"wrap": "sde", "model": HIST_MODELS[0]},
+    {"wrap": "forward", "model": HIST_MODELS[4]},
+    {"wrap": "sde", "cmodel": {"margins": ["cgmy12", "cgmy05"], "copula": {"kind": "independent"}}},  # last margin decides
+    {"wrap": "forward", "cmodel": HIST_CMODELS[0]},
+]
+
+
+def _hist_cases(tier):
+    """Histories on one model object: (model, h, p, first constructor); the words over (mutation, constructor) of length
+    depth - 1 that follow the first construction are enumerated completely inside the case."""
+    thorough = tier == "thorough"
+    out = []
+
+    def add(depth, h, p, model=None, cmodel=None, wrap=None):
+        c = {"model": model, "cmodel": cmodel, "wrap": wrap}
+        dim = len(cmodel["margins"]) if cmodel is not None else 1
+        _, kinds = _hist_menus(c)
+        for first in kinds:
+            out.append({"sub": "mhist", "dim": dim, "h": h, "p": p, "first": first, "depth": depth,
+                        "model": model, "cmodel": cmodel, "wrap": wrap})
+
+    hps = [(0.1, 0.99999)] + ([(0.05, 0.999)] if thorough else [])
+    depth = 3 if thorough else 2
+    for h, p in hps:
+        for m in HIST_MODELS:
+            add(depth, h, p, model=m)
+        for cm in HIST_CMODELS:
+            add(depth, h, p, cmodel=cm)
+        for w in HIST_WRAPPED:
+            add(depth, h, p, model=w.get("model"), cmodel=w.get("cmodel"), wrap=w["wrap"])
+    if not thorough:
+        add(2, 0.05, 0.999, model=HIST_MODELS[4])
+        add(3, 0.1, 0.99999, model=HIST_MODELS[4])
+    return out
+
+
 def cases(tier):
     thorough = tier == "thorough"
     depth = 5 if thorough else 3
     out = []
 
-    def add(gspec, dim, model=None, cmodel=None):
+    def add(gspec, dim, model=None, cmodel=None, wrap=None):
         d = depth
         if gspec["kind"] == "probability":
             d = min(depth, 4)
-        out.append({"sub": "grid", "dim": dim, "grid": gspec, "model": model, "cmodel": cmodel, "depth": d})
+        c = {"sub": "grid", "dim": dim, "grid": gspec, "model": model, "cmodel": cmodel, "depth": d}
+        if wrap:
+            c["wrap"] = wrap
+        out.append(c)
 
     # time axis (cheap, first)
     for start in [0.0, 0.5]:
@@ -152,12 +249,34 @@ def cases(tier):
     for name in sorted(RAW_AXES):
         add({"kind": "raw", "h": 0.1, "name": name}, len(RAW_AXES[name]))
 
+    out += _hist_cases(tier)
+
     # 1-d models
     indep = {"fixed", "geometric-bounds"}
     g1 = [g for g in A.grid_specs(tier, 1) if g["kind"] not in indep] + _extra_model_grids(tier, 1)
-    for m in A.model_specs(tier):
+    specs = A.model_specs(tier)
+    if thorough:
+        specs = A.with_reinit(specs)
+    else:
+        # one "reinit" twin per family and representation (the first parameter set of each)
+        seen, tw = set(), []
+        for m in specs:
+            tw.append(m)
+            if (m["family"], m["exp"]) not in seen:
+                seen.add((m["family"], m["exp"]))
+                tw.append(dict(m, via="reinit"))
+        specs = tw
+    for m in specs:
         for g in g1:
             add(g, g.get("dim", 1), model=m)
+
+    # SDE models driven by a Levy (copula) model: the constructors read the measure of the driver
+    for w in HIST_WRAPPED:
+        dim = len(w["cmodel"]["margins"]) if w.get("cmodel") else 1
+        gs = [g for g in A.grid_specs(tier, dim) if g["kind"] in ("uniform", "geometric")] \
+            + [g for g in _extra_model_grids(tier, dim) if g["kind"] == "geometric"]
+        for g in gs:
+            add(g, dim, model=w.get("model"), cmodel=w.get("cmodel"), wrap=w["wrap"])
 
     # copula models, dimension 2 and 3
     for cm in A.copula_model_specs(tier):
@@ -175,21 +294,71 @@ def cases(tier):
 # construction of one real grid from a case
 # ----------------------------------------------------------------------------------------------------------------------
 
-def _model_of(case):
+def _base_model(case, alt=None):
+    """The Levy / exponential / copula model of the case, built by the library's public constructors. `alt` (one entry per
+    margin: None | "alt" | "donor") asks for another parameter set of the margin's family (`_alt_params`) instead of the
+    spec's own."""
     if case.get("model") is not None:
-        return A.make_model(case["model"])
+        spec = case["model"]
+        if alt and alt[0]:
+            spec = dict(spec, params=_alt_params(spec, alt[0]))
+        return A.make_model(spec)
     if case.get("cmodel") is not None:
-        return A.make_copula_model(case["cmodel"])
+        cm = case["cmodel"]
+        if not alt or not any(alt):
+            return A.make_copula_model(cm)
+        from rpylib.model.utils import create_levy_copula_model
+
+        models = []
+        for name, flag in zip(cm["margins"], alt):
+            ms = dict(A.MARGINS[name])
+            if cm.get("exp"):
+                ms = dict(ms, exp=True, r=0.02, d=0.0, spot=100.0)
+            if flag:
+                ms = dict(ms, params=_alt_params(ms, flag))
+            models.append(A.make_model(ms))
+        return create_levy_copula_model(models=models, copula=A.make_copula(cm["copula"]))
     return None
 
 
-def _margin_measures(case, model):
-    """The 1-d Levy measures the truncation promise is about (one per margin)."""
+def _wrap(base, wrap):
+    """The model handed to the constructor: the Levy (copula) model itself, or an SDE model driven by it (the grid
+    constructors accept a LevyDrivenSDEModel and read the measure of its driver: scripts/mlmc/convergence/mlmc_convergence_sde.py)."""
+    if not wrap or base is None:
+        return base
+    if wrap == "sde":
+        from rpylib.model.levydrivensde.levydrivensde import LevyDrivenSDEModel
+
+        return LevyDrivenSDEModel(driver=base, x0=1.0)
+    if wrap == "forward":
+        from rpylib.model import utils as U
+
+        if getattr(base, "models", None) is not None:
+            return U.create_levy_forward_market_model_copula(driver=list(base.models))  # default Clayton copula
+        return U.create_levy_forward_market_model(driver=base)
+    raise ValueError(wrap)
+
+
+def _model_of(case, alt=None):
+    return _wrap(_base_model(case, alt), case.get("wrap"))
+
+
+def _carrier(model):
+    """The Levy (copula) model carrying the measure: the driver of an SDE model, else the model itself."""
+    return getattr(model, "driver", model)
+
+
+def _margin_models(model):
     if model is None:
         return []
-    if case.get("cmodel") is not None:
-        return [m.levy_triplet.nu for m in model.models]
-    return [model.levy_triplet.nu]
+    c = _carrier(model)
+    ms = getattr(c, "models", None)
+    return list(ms) if ms is not None else [c]
+
+
+def _margin_measures(case, model):
+    """The 1-d Levy measures the truncation promise is about (one per margin), in their CURRENT state."""
+    return [m.levy_triplet.nu for m in _margin_models(model)]
 
 
 def _construct(case, model):
@@ -202,6 +371,9 @@ def _construct(case, model):
         axes = [np.array(a, dtype=float) for a in RAW_AXES[g["name"]]]
         origin = axes[0].tolist().index(0.0)
         return S.CTMCGrid(h=g["h"], origin_coordinate=origin, axes=axes)
+    if kind == "credit" and "a_abs" in g:
+        a = [float(x) for x in g["a_abs"]]
+        return S.CTMCCredit(h=g["h"], level_a=a[0] if dim == 1 else a, model=model, symmetric_grid=g.get("symmetric", True))
     return A.make_grid(g, model, dimension=dim)
 
 
@@ -220,10 +392,36 @@ def _origin_indices(grid):
         return [int(getattr(oc, "value", oc))]
 
 
+def _accessors(grid):
+    """What the grid's own public accessors answer at its origin coordinate (read at every stage of a history, so that an
+    answer remembered from before a refine() shows)."""
+    oc = grid.origin_coordinate
+
+    def tolist(v):
+        try:
+            return [float(x) for x in v]
+        except TypeError:
+            return [float(v)]
+
+    out = {}
+    for name, f in (("left_point", lambda: grid.left_point(oc)), ("right_point", lambda: grid.right_point(oc)),
+                    ("getitem", lambda: grid[oc])):
+        try:
+            out[name] = tolist(f())
+        except Exception as e:
+            out[name] = f"{type(e).__name__}: {e}"
+    try:
+        out["number_of_points"] = int(grid.number_of_points())
+    except Exception as e:
+        out["number_of_points"] = f"{type(e).__name__}: {e}"
+    return out
+
+
 def _snapshot(grid):
     axes = [np.array(a, dtype=float, copy=True) for a in grid.axes]
     tr = getattr(grid, "truncations", None)
     return {
+        "accessors": _accessors(grid),
         "axes": axes,
         "h": float(grid.h),
         "origin": _origin_indices(grid),
@@ -250,36 +448,53 @@ def _own_middles(grid):
 # oracles on the density
 # ----------------------------------------------------------------------------------------------------------------------
 
-def _tail_fraction(nu, h, b, side):
+def _tail_fraction(nu, h, b, side, splits=()):
     """Share of the one-sided jump mass beyond h/2 that lies beyond the bound b: nu((b, inf)) / nu((h/2, inf)) for side
-    'right', nu((-inf, b)) / nu((-inf, -h/2)) for 'left'. Returns (value, error estimate)."""
+    'right', nu((-inf, b)) / nu((-inf, -h/2)) for 'left'. Returns (value, error estimate). `splits`: points where the
+    density is known to jump (the end points of a truncation applied with truncate_levy_measure)."""
     if side == "right":
         if b <= h / 2:
             return 1.0, 0.0
-        t, et = O.integrate_density(nu, b, math.inf)
-        i, ei = O.integrate_density(nu, h / 2, math.inf)
+        t, et = O.integrate_density(nu, b, math.inf, extra_splits=splits)
+        i, ei = O.integrate_density(nu, h / 2, math.inf, extra_splits=splits)
     else:
         if b >= -h / 2:
             return 1.0, 0.0
-        t, et = O.integrate_density(nu, -math.inf, b)
-        i, ei = O.integrate_density(nu, -math.inf, -h / 2)
+        t, et = O.integrate_density(nu, -math.inf, b, extra_splits=splits)
+        i, ei = O.integrate_density(nu, -math.inf, -h / 2, extra_splits=splits)
     if not (i > 0) or not math.isfinite(i):
         return math.nan, math.inf
     return t / i, (et + ei * t / i) / i
 
 
-def _bound_class(nus, h, p, side):
+class _Tails:
+    """Tail fractions of the margins' measures in their current state, memoised: `keys[k]` names the state of margin k
+    (parameter set and truncations applied so far), so that a value is re-used only for the same measure."""
+
+    def __init__(self, nus, h, splits=None, keys=None, memo=None):
+        self.nus = list(nus)
+        self.h = h
+        self.splits = splits if splits is not None else [()] * len(self.nus)
+        self.keys = keys if keys is not None else list(range(len(self.nus)))
+        self.memo = memo if memo is not None else {}
+
+    def __call__(self, k, b, side):
+        key = (repr(self.keys[k]), self.h, float(b), side)
+        if key not in self.memo:
+            self.memo[key] = _tail_fraction(self.nus[k], self.h, float(b), side, tuple(self.splits[k]))
+        return self.memo[key]
+
+    def all(self, b, side):
+        return [self(k, b, side) for k in range(len(self.nus))]
+
+
+def _bound_class(tails, h, p, side):
     """Where the promised bound (outermost root over the margins) lies: within h, within 2h or beyond 2h of the origin.
     Decided from the density alone: the root of margin i is within x iff tail_i(x)/I_i <= 1-p."""
     s = 1.0 if side == "right" else -1.0
     within = {}
     for mult in (1.0, 2.0):
-        ok = True
-        for nu in nus:
-            f, e = _tail_fraction(nu, h, s * mult * h, side)
-            if not (f <= (1 - p)):
-                ok = False
-        within[mult] = ok
+        within[mult] = all(f <= (1 - p) for f, _ in tails.all(s * mult * h, side))
     if within[1.0]:
         return "bound-within-h"
     if within[2.0]:
@@ -287,10 +502,10 @@ def _bound_class(nus, h, p, side):
     return "bound-beyond-2h"
 
 
-def _promise(case, model):
+def _promise(case):
     """What the constructor promised about the end points. Returns dict with
        'bounds': per-axis (l, r) to be matched closely, or None;
-       'tail':  (p, h, nus) when the end points are roots of the tail-mass equation."""
+       'tail':  (p, h) when the end points are roots of the tail-mass equation of the margins' measures."""
     g = case["grid"]
     k = g["kind"]
     dim = case["dim"]
@@ -302,9 +517,9 @@ def _promise(case, model):
     if k == "raw":
         return {"bounds": [(a[0], a[-1]) for a in RAW_AXES[g["name"]]]}
     if k in ("uniform", "geometric"):
-        return {"tail": (g["p"], g["h"], _margin_measures(case, model))}
+        return {"tail": (g["p"], g["h"])}
     if k == "credit":
-        return {"tail": (0.99999, g["h"], _margin_measures(case, model))}  # compute_truncation's default, as the constructor uses it
+        return {"tail": (0.99999, g["h"])}  # compute_truncation's default, as the constructor uses it
     return {}
 
 
@@ -330,6 +545,14 @@ def _state_invariants(sh, ctx, snap, depth):
         origin = (origin * len(axes))[: len(axes)]
     if not (math.isfinite(h) and h > 0):
         out.append((f"C13:state:{comp}:h-not-positive-finite:{dcls}", f"h = {h}", None))
+    if snap["dimension"] != len(axes):
+        out.append((f"C13:state:{comp}:dimension-attribute-differs-from-number-of-axes:{dcls}",
+                    f"dimension = {snap['dimension']}, {len(axes)} axes", None))
+    acc = snap.get("accessors") or {}
+    sh.count("evaluations")
+    if "number_of_points" in acc and acc["number_of_points"] != math.prod(int(a.size) for a in axes):
+        out.append((f"C13:state:{comp}:number_of_points-is-not-the-product-of-the-axis-sizes:{dcls}",
+                    f"number_of_points() = {acc['number_of_points']!r}, axis sizes {[int(a.size) for a in axes]}", None))
     for k, ax in enumerate(axes):
         sh.count("evaluations")
         o = origin[k]
@@ -350,6 +573,17 @@ def _state_invariants(sh, ctx, snap, depth):
             out.append((f"C13:state:{comp}:origin-index-does-not-hold-zero:{dcls}",
                         f"{where}: origin index {o}, axis value there {val!r}", {"axis": ax.tolist()}))
             continue
+        # the grid's own accessors at its origin coordinate agree with the axes
+        for name, j in (("getitem", o), ("left_point", o - 1), ("right_point", o + 1)):
+            if name not in acc or not (0 <= j < ax.size):
+                continue
+            sh.count("evaluations")
+            v = acc[name]
+            if isinstance(v, str) or len(v) != len(axes) or v[k] != ax[j]:
+                got = v if isinstance(v, str) else (v[k] if len(v) == len(axes) else v)
+                out.append((f"C13:state:{comp}:accessor-{name}-at-origin-differs-from-the-axis:{dcls}",
+                            f"{where}: grid.{name}(origin_coordinate) gives {got!r}, the axis holds {ax[j]!r} at index {j}",
+                            {"axis": ax.tolist()}))
         # neighbours
         if o - 1 < 0:
             out.append((f"C13:state:{comp}:no-left-neighbour-of-origin:{dcls}{lcls}",
@@ -380,6 +614,13 @@ def _promise_invariants(sh, ctx, snap, case, grid):
     axes = snap["axes"]
     pr = ctx.promise
     g = case["grid"]
+    sh.count("evaluations")
+    if snap["h"] != g["h"]:
+        out.append((f"C13:promise:{comp}:h-is-not-the-requested-step:{dcls}",
+                    f"the constructed grid has h = {snap['h']!r}, requested {g['h']!r}", None))
+    if len(axes) != case["dim"]:
+        out.append((f"C13:promise:{comp}:number-of-axes-is-not-the-dimension:{dcls}",
+                    f"{len(axes)} axes for dimension {case['dim']}", None))
     if pr.get("bounds"):
         for k, ax in enumerate(axes):
             sh.count("evaluations")
@@ -388,12 +629,12 @@ def _promise_invariants(sh, ctx, snap, case, grid):
                 out.append((f"C13:promise:{comp}:end-points-are-not-the-requested-bounds:{dcls}",
                             f"axis {k}: end points ({ax[0]!r}, {ax[-1]!r}), requested ({l!r}, {r!r})", None))
     if pr.get("tail"):
-        p, h, nus = pr["tail"]
+        p, h = pr["tail"]
         for k, ax in enumerate(axes):
             for side, b in (("left", float(ax[0])), ("right", float(ax[-1]))):
                 sh.count("evaluations")
                 scls = ctx.side_cls.get(side, "")
-                fr = [_tail_fraction(nu, h, b, side) for nu in nus]
+                fr = ctx.tails.all(b, side)
                 if any(not (e <= TOL_TAIL / 10) for _, e in fr):
                     sh.count("oracle_inconclusive")
                     continue
@@ -421,7 +662,6 @@ def _promise_invariants(sh, ctx, snap, case, grid):
                 else:
                     sh.count("tail_probability_confirmed")
     if g["kind"] == "credit":
-        fr = g["a_frac"]
         l_model = ctx.credit_levels
         for k, ax in enumerate(axes):
             a = l_model[k]
@@ -443,8 +683,9 @@ def _probability_promise(sh, ctx, snap, case, grid):
     g = case["grid"]
     pmin, h = g["pmin"], g["h"]
     nu = ctx.nus[0]
-    il, el = O.integrate_density(nu, -math.inf, -h / 2)
-    ir, er = O.integrate_density(nu, h / 2, math.inf)
+    sp = tuple(ctx.tails.splits[0])
+    il, el = O.integrate_density(nu, -math.inf, -h / 2, extra_splits=sp)
+    ir, er = O.integrate_density(nu, h / 2, math.inf, extra_splits=sp)
     total = il + ir
     if not (total > 0) or (el + er) > 1e-9 * total:
         sh.count("oracle_inconclusive")
@@ -463,7 +704,7 @@ def _probability_promise(sh, ctx, snap, case, grid):
             shares.append(None)
             continue
         sh.count("evaluations")
-        v, e = O.integrate_density(nu, float(x), float(y))
+        v, e = O.integrate_density(nu, float(x), float(y), extra_splits=sp)
         if e > 1e-9 * total:
             sh.count("oracle_inconclusive")
             shares.append(None)
@@ -480,7 +721,7 @@ def _probability_promise(sh, ctx, snap, case, grid):
         else:
             sh.count("probability_steps_below_the_requested_share")
     if (case.get("model") or {}).get("family") == "hem" and not case["model"].get("exp") and not case["model"]["params"] \
-            and case["dim"] == 1:
+            and case["dim"] == 1 and not case.get("hist"):
         sh.sample({"sub": "probability-step shares", "pmin": pmin, "h": h, "axis": ax.tolist(), "shares": shares})
     return out
 
@@ -550,6 +791,8 @@ def _edge_invariants(sh, ctx, old, new, expected_mid, nrefine):
 def check_case(sh, case):
     if case["sub"] == "time":
         return _sub_time(sh, case)
+    if case["sub"] == "mhist":
+        return _sub_mhist(sh, case)
     return _sub_grid(sh, case)
 
 
@@ -566,60 +809,91 @@ def _model_cls(case):
     return ""
 
 
-def _sub_grid(sh, case):
+def _prepare(sh, case, model, splits=None, keys=None, memo=None, l_ref=None):
+    """Context of ONE constructor call on `model` in its current state: component / input classes for the keys, the
+    margins' measures, the memoised density oracle, the promise. Returns (ctx, None) or (None, reason) when the spec is
+    outside the alphabet for this model."""
     g = case["grid"]
     ctx = _Ctx()
     ctx.component = _component(g)
-    ctx.dcls = f"d{case['dim']}"
+    ctx.dcls = f"d{case['dim']}" + (f":{case['wrap']}-model" if case.get("wrap") else "")
     ctx.model_cls = _model_cls(case)
     ctx.side_cls = {}
-    model = _model_of(case)
     ctx.nus = _margin_measures(case, model)
-    ctx.promise = _promise(case, model)
+    ctx.tails = _Tails(ctx.nus, g["h"], splits, keys, memo)
+    ctx.promise = _promise(case)
     ctx.credit_levels = None
     ctx.credit_cls = ""
     sh.cls(f"constructor:{ctx.component}")
     sh.cls(f"dimension:{case['dim']}")
+    if case.get("wrap"):
+        sh.cls(f"model-wrapper:{case['wrap']}")
     if case.get("cmodel") is not None:
         sh.cls("model:copula:" + case["cmodel"]["copula"]["kind"])
     elif case.get("model") is not None:
-        sh.cls("model:" + ("exp-" if case["model"].get("exp") else "") + case["model"]["family"])
+        sh.cls("model:" + ("exp-" if case["model"].get("exp") else "") + case["model"]["family"]
+               + (":reinit" if case["model"].get("via") == "reinit" else ""))
     else:
         sh.cls("model:none")
 
     if ctx.promise.get("tail"):
-        p, h, nus = ctx.promise["tail"]
+        p, h = ctx.promise["tail"]
         for side in ("left", "right"):
-            c = _bound_class(nus, h, p, side)
+            c = _bound_class(ctx.tails, h, p, side)
             ctx.side_cls[side] = f":{side}-{c}"
             sh.cls(f"{ctx.component}:{side}-{c}")
 
     if g["kind"] == "credit":
-        # thresholds as the alphabet builder computes them; the constructor's formula needs l < a < -h
-        from rpylib.grid.spatial import compute_truncation
+        p_, h_ = 0.99999, g["h"]
+        if "a_abs" in g:
+            # absolute thresholds (histories): admissible iff -h > a > outermost left root, decided on the density
+            levels = [float(x) for x in g["a_abs"]][: case["dim"]]
+            if any(not (a < -h_) for a in levels) \
+                    or any(all(f <= (1 - p_) for f, _ in ctx.tails.all(a, "left")) for a in levels):
+                sh.count("skipped_credit_threshold_outside_(l,-h)")
+                return None, "skipped-credit"
+            l = l_ref
+        else:
+            # thresholds as the alphabet builder computes them; the constructor's formula needs l < a < -h
+            from rpylib.grid.spatial import compute_truncation
 
-        try:
-            l, _ = compute_truncation(model=model, h=g["h"])
-        except Exception as e:
-            sh.violation(f"C13:state:{ctx.component}:compute-truncation-raises:{type(e).__name__}:{ctx.dcls}",
-                         f"compute_truncation(model, h={g['h']}): {type(e).__name__}: {e}", None)
-            sh.outcome(("raises", ctx.component, type(e).__name__))
-            return
-        fr = g["a_frac"]
-        frs = list(fr) if isinstance(fr, (list, tuple)) else [fr] * case["dim"]
-        levels = [float(f * l) for f in frs]
-        if any(not (l < a < -g["h"]) for a in levels):
-            sh.count("skipped_credit_threshold_outside_(l,-h)")
-            sh.outcome(("skipped-credit", ctx.component))
-            return
+            try:
+                l, _ = compute_truncation(model=model, h=g["h"])
+            except Exception as e:
+                sh.violation(f"C13:state:{ctx.component}:compute-truncation-raises:{type(e).__name__}:{ctx.dcls}",
+                             f"compute_truncation(model, h={g['h']}): {type(e).__name__}: {e}", None)
+                return None, ("raises", type(e).__name__)
+            fr = g["a_frac"]
+            frs = list(fr) if isinstance(fr, (list, tuple)) else [fr] * case["dim"]
+            levels = [float(f * l) for f in frs]
+            if any(not (l < a < -g["h"]) for a in levels):
+                sh.count("skipped_credit_threshold_outside_(l,-h)")
+                return None, "skipped-credit"
         ctx.credit_levels = levels
         if g.get("symmetric", True) and case["dim"] > 1:
-            # does a mirror point -a+eps (constructor's eps) lie at or beyond the outermost right root? decided on the density
-            p_, h_ = 0.99999, g["h"]
-            mirror = max(-a + min(abs(l - a) / 2, abs(a + h_) / 2) for a in levels)
-            beyond = all(_tail_fraction(nu, h_, mirror, "right")[0] <= (1 - p_) for nu in ctx.nus)
-            ctx.credit_cls = ":mirror-point-beyond-right-root" if beyond else ":mirror-point-inside-right-root"
+            if l is None:
+                ctx.credit_cls = ":mirror-point-unclassified"
+            else:
+                # does a mirror point -a+eps (constructor's eps) lie at or beyond the outermost right root? (density)
+                mirror = max(-a + min(abs(l - a) / 2, abs(a + h_) / 2) for a in levels)
+                beyond = all(f <= (1 - p_) for f, _ in ctx.tails.all(mirror, "right"))
+                ctx.credit_cls = ":mirror-point-beyond-right-root" if beyond else ":mirror-point-inside-right-root"
             sh.cls(f"{ctx.component}{ctx.credit_cls[1:] and ':' + ctx.credit_cls[1:]}")
+    return ctx, None
+
+
+def _refusable(ctx):
+    return any(c.endswith("bound-within-h") for c in ctx.side_cls.values()) \
+        or ctx.credit_cls == ":mirror-point-beyond-right-root"
+
+
+def _sub_grid(sh, case):
+    g = case["grid"]
+    model = _model_of(case)
+    ctx, why = _prepare(sh, case, model)
+    if ctx is None:
+        sh.outcome((why, _component(g)) if isinstance(why, str) else ("raises", _component(g), why[1]))
+        return
 
     state0 = {}
 
@@ -668,8 +942,7 @@ def _sub_grid(sh, case):
             sh.violation(key, what, {"history": hist, "detail": detail})
         return found[0] if found else None
 
-    refusable = any(c.endswith("bound-within-h") for c in ctx.side_cls.values()) \
-        or ctx.credit_cls == ":mirror-point-beyond-right-root"
+    refusable = _refusable(ctx)
     try:
         s, t, d = core.bfs(sh, build, menu, canon, invariant, case["depth"])
     except Exception as e:
@@ -688,6 +961,14 @@ def _sub_grid(sh, case):
                      f"{type(e).__name__}: {e}", {"traceback": traceback.format_exc(limit=6)})
         sh.outcome(("raises", ctx.component, type(e).__name__))
         return
+    try:
+        for key, what, detail in _twin_invariants(sh, ctx, case):
+            sh.violation(key, what, detail)
+    except Exception as e:
+        import traceback
+
+        sh.violation(f"C13:twin:{ctx.component}:construct-copy-or-refine-raises:{type(e).__name__}:{ctx.dcls}",
+                     f"{type(e).__name__}: {e}", {"traceback": traceback.format_exc(limit=6)})
     sh.traces += 1
     if t > 0:
         sh.nontriv()
@@ -700,6 +981,314 @@ def _sub_grid(sh, case):
         sh.sample({"sub": "grid", "constructor": ctx.component, "spec": g, "model": A.model_label(case["model"]),
                    "axes_at_depth_0": [a.tolist() for a in snap["axes"]], "h": snap["h"], "origin": snap["origin"],
                    "truncations": snap["truncations"], "states": s, "transitions": t})
+
+
+def _same_snap(a, b, rtol=0.0):
+    """None when the two snapshots describe the same grid, else a short description of the first difference."""
+    if len(a["axes"]) != len(b["axes"]):
+        return f"{len(a['axes'])} axes vs {len(b['axes'])}"
+    for k, (x, y) in enumerate(zip(a["axes"], b["axes"])):
+        if x.shape != y.shape:
+            return f"axis {k}: {x.size} states vs {y.size}"
+        same = np.array_equal(x, y) if rtol == 0.0 else bool(np.allclose(x, y, rtol=rtol, atol=1e-13))
+        if not same:
+            j = int(np.argmax(x != y))
+            return f"axis {k}, index {j}: {x[j]!r} vs {y[j]!r}"
+    if a["h"] != b["h"]:
+        return f"h {a['h']!r} vs {b['h']!r}"
+    if a["origin"] != b["origin"]:
+        return f"origin {a['origin']} vs {b['origin']}"
+    ta, tb = a["truncations"], b["truncations"]
+    if (ta is None) != (tb is None) or (ta is not None and len(ta) != len(tb)):
+        return f"truncations {ta} vs {tb}"
+    if ta is not None:
+        fa = np.array(ta, dtype=float)
+        fb = np.array(tb, dtype=float)
+        if not (np.array_equal(fa, fb) if rtol == 0.0 else np.allclose(fa, fb, rtol=rtol, atol=1e-13)):
+            return f"truncations {ta} vs {tb}"
+    return None
+
+
+def _twin_invariants(sh, ctx, case):
+    """Several grids alive at once: two grids built from the SAME arguments (and the same model object) and a deep copy
+    of the first. A constructor returns the same grid for the same arguments; refine() of one grid changes that grid only
+    (no state shared through class attributes, interned coordinates, cached arrays) and acts on a copy as on the original."""
+    import copy
+
+    out = []
+    comp, dcls = ctx.component, ctx.dcls
+    model = _model_of(case)
+    g1 = _construct(case, model)
+    s1 = _snapshot(g1)
+    g2 = _construct(case, model)
+    s2 = _snapshot(g2)
+    sh.count("evaluations")
+    d = _same_snap(s1, s2)
+    if d:
+        out.append((f"C13:twin:{comp}:second-grid-from-the-same-arguments-differs:{dcls}",
+                    f"two constructor calls with the same arguments and model object: {d}", None))
+    g3 = copy.deepcopy(g1)
+    sh.count("evaluations")
+    d = _same_snap(s1, _snapshot(g3))
+    if d:
+        out.append((f"C13:twin:{comp}:deep-copy-differs-from-the-grid:{dcls}", d, None))
+    names = {1: "the first grid", 2: "the grid built after it from the same arguments", 3: "the deep copy of the first grid"}
+    grids = {1: g1, 2: g2, 3: g3}
+    expect = {1: s1, 2: s2, 3: s1}
+    ref = None
+    # refine in the order first / copy / last built / first again; after every call all three grids are compared
+    for step, i in enumerate((1, 3, 2, 1)):
+        grids[i].refine()
+        now = _snapshot(grids[i])
+        if step < 3:
+            if ref is None:
+                ref = now
+            sh.count("evaluations")
+            d = _same_snap(ref, now)
+            if d and not _same_snap(s1, s2):
+                out.append((f"C13:twin:{comp}:refinement-depends-on-other-grids-refined-before:{dcls}",
+                            f"refine() of {names[i]} differs from refine() of {names[1]}: {d}", None))
+        expect[i] = now
+        for j in (1, 2, 3):
+            if j == i:
+                continue
+            sh.count("evaluations")
+            d = _same_snap(expect[j], _snapshot(grids[j]))
+            if d:
+                out.append((f"C13:twin:{comp}:refining-one-grid-changes-another-grid:{dcls}",
+                            f"refine() of {names[i]} (call {step + 1}) changed {names[j]}: {d}", None))
+    sh.count("twin_grids_compared")
+    return out
+
+
+# ----------------------------------------------------------------------------------------------------------------------
+# histories on ONE model object: build a grid, change the model's measure in place, build again
+# ----------------------------------------------------------------------------------------------------------------------
+
+ALT_PARAMS = {"hem": A.HEM_PARAMS[1], "merton": A.MERTON_PARAMS[1], "vg": A.VG_PARAMS[1]}
+
+# mutations of the model between two constructor calls (1-d model | copula model); every one goes through public API
+MUT_1D = ["again", "refine-previous", "other-h", "set-params", "truncate", "other-object", "deepcopy-set-params",
+          "deepcopy-truncate"]
+MUT_ND = ["again", "refine-previous", "other-h", "set-params-first-margin", "set-params-last-margin", "truncate",
+          "truncate-last-margin", "other-object", "deepcopy-truncate"]
+KINDS_1D = ["uniform", "geometric", "credit", "probability"]
+KINDS_ND = ["uniform", "geometric", "credit-symmetric", "credit-asymmetric"]
+KINDS_WRAPPED = ["uniform", "geometric"]   # CTMCCredit / CTMCGridProbabilityStep are not declared for SDE models
+CREDIT_LEVELS = [-1.25, -1.5, -1.75]       # thresholds of the histories, in units of h
+
+
+def _alt_params(spec, version="alt"):
+    """Parameter set number `version` ('alt' | 'donor') of the family of `spec`, different from the spec's own."""
+    fam = spec["family"]
+    if version == "donor":
+        return dict(A.DONOR_PARAMS[fam])
+    if fam == "cgmy":
+        alt = {"c": 0.5, "g": 6.0, "m": 6.0, "y": spec["params"].get("y", 0.5)}
+    else:
+        alt = dict(ALT_PARAMS[fam])
+    if all(spec["params"].get(k) == v for k, v in alt.items()):
+        alt = dict(A.DONOR_PARAMS[fam])
+    return alt
+
+
+def _hist_menus(case):
+    nd = case.get("cmodel") is not None
+    kinds = KINDS_WRAPPED if case.get("wrap") else (KINDS_ND if nd else KINDS_1D)
+    return (MUT_ND if nd else MUT_1D), kinds
+
+
+def _hist_gspec(kind, h, p, dim):
+    if kind == "uniform":
+        return {"kind": "uniform", "h": h, "p": p}
+    if kind == "geometric":
+        return {"kind": "geometric", "h": h, "n_side": 3, "p": p}
+    if kind == "probability":
+        return {"kind": "probability", "h": h, "pmin": 0.2}
+    if kind.startswith("credit"):
+        return {"kind": "credit", "h": h, "a_abs": [m * h for m in CREDIT_LEVELS[:dim]],
+                "symmetric": kind != "credit-asymmetric"}
+    raise ValueError(kind)
+
+
+def _margin_spec(case, k):
+    if case.get("model") is not None:
+        return case["model"]
+    ms = dict(A.MARGINS[case["cmodel"]["margins"][k]])
+    if case["cmodel"].get("exp"):
+        ms = dict(ms, exp=True, r=0.02, d=0.0, spot=100.0)
+    return ms
+
+
+def _set_params(margin_model, params):
+    """Parameters re-assigned attribute by attribute on the model's OWN parameter object, then initialisation()."""
+    par = getattr(margin_model, "levy_model", margin_model).parameters
+    for n in sorted(params):
+        setattr(par, n, params[n])
+    par.initialisation()
+
+
+class _Hist:
+    """One model object and the description of what was done to its measure (per margin: parameter version, cuts)."""
+
+    def __init__(self, case):
+        self.case = case
+        self.model = _model_of(case)
+        n = len(_margin_models(self.model))
+        self.version = [None] * n
+        self.cuts = [[] for _ in range(n)]
+        self.prev = None        # the grid built at the previous step (None: refused / skipped)
+
+    def keys(self):
+        return [(k, self.version[k], tuple(self.cuts[k])) for k in range(len(self.version))]
+
+    def splits(self):
+        return [tuple(x for c in cs for x in c) for cs in self.cuts]
+
+    def fresh(self):
+        """A NEW model object built directly in the state this one was brought to."""
+        m = _model_of(self.case, alt=list(self.version))
+        for k, mm in enumerate(_margin_models(m)):
+            for c in self.cuts[k]:
+                mm.truncate_levy_measure(c)
+        return m
+
+    def _next_version(self, k):
+        self.version[k] = "alt" if self.version[k] != "alt" else "donor"
+        return _alt_params(_margin_spec(self.case, k), self.version[k])
+
+    def apply(self, mut):
+        """Returns False when the mutation cannot be applied (no previous grid to take the cut from)."""
+        import copy
+
+        if mut.startswith("deepcopy-"):
+            self.model = copy.deepcopy(self.model)
+            mut = mut[len("deepcopy-"):]
+        margins = _margin_models(self.model)
+        if mut in ("new", "again", "other-object", "other-h"):
+            return True
+        if mut == "refine-previous":
+            if self.prev is None:
+                return False
+            self.prev.refine()
+            return True
+        if mut.startswith("set-params"):
+            k = len(margins) - 1 if mut.endswith("last-margin") else 0
+            _set_params(margins[k], self._next_version(k))
+            return True
+        if mut.startswith("truncate"):
+            if self.prev is None:
+                return False
+            tr = [(float(t[0]), float(t[1])) for t in self.prev.truncations]
+            cuts = [(0.6 * l, 0.7 * r) for l, r in tr]
+            if mut == "truncate-last-margin":
+                k = len(margins) - 1
+                margins[k].truncate_levy_measure(cuts[k])
+                self.cuts[k].append(cuts[k])
+            else:
+                # the model's own method: a pair for a 1-d model, one pair per margin for a copula model
+                self.model.truncate_levy_measure(cuts[0] if self.case.get("cmodel") is None else cuts)
+                for k in range(len(margins)):
+                    self.cuts[k].append(cuts[k])
+            return True
+        raise ValueError(mut)
+
+
+def _hist_key(key, mut):
+    parts = key.split(":")
+    parts[1] = "history-" + parts[1]
+    return ":".join(parts) + ":after-" + mut
+
+
+def _hist_step(sh, case, hs, model, keys, splits, fresh_model, kind, mut, word, memo, fresh_memo):
+    """One constructor call inside a history: the grid built from `model` (in the state described by keys / splits) is
+    judged exactly as a grid built from a new model (state invariants, promises on the CURRENT measure by quadrature of
+    the density) and compared with the grid built from `fresh_model()`, a new model object in the same state."""
+    import traceback
+
+    g = _hist_gspec(kind, case["h"], case["p"], case["dim"])
+    pc = {"sub": "grid", "dim": case["dim"], "grid": g, "model": case.get("model"), "cmodel": case.get("cmodel"),
+          "wrap": case.get("wrap"), "hist": True}
+    fkey = (repr(keys), repr(sorted(g.items())))
+    if fkey not in fresh_memo:
+        try:
+            fresh_memo[fkey] = _snapshot(_construct(pc, fresh_model()))
+        except Exception as e:
+            fresh_memo[fkey] = repr(e)
+    fsnap = fresh_memo[fkey]
+    l_ref = float(fsnap["truncations"][0][0]) if isinstance(fsnap, dict) and fsnap["truncations"] else None
+    ctx, why = _prepare(sh, pc, model, splits=splits, keys=keys, memo=memo, l_ref=l_ref)
+    if ctx is None:
+        return None
+    detail = {"history": [list(w) for w in word], "model_state": repr(keys)}
+    try:
+        grid = _construct(pc, model)
+    except Exception as e:
+        if isinstance(e, ValueError) and _refusable(ctx):
+            sh.count("constructor_refuses_arguments_without_well_formed_grid")
+            return None
+        sh.violation(_hist_key(f"C13:state:{ctx.component}:constructor-raises:{type(e).__name__}:{ctx.dcls}"
+                               f"{ctx.side_cls.get('left', '')}{ctx.side_cls.get('right', '')}", mut),
+                     f"{type(e).__name__}: {e}", dict(detail, traceback=traceback.format_exc(limit=6)))
+        return None
+    snap = _snapshot(grid)
+    found = _state_invariants(sh, ctx, snap, 0) + _promise_invariants(sh, ctx, snap, pc, grid)
+    sh.count("evaluations")
+    if isinstance(fsnap, dict):
+        d = _same_snap(snap, fsnap, rtol=1e-9)
+        if d:
+            found.append((f"C13:fresh:{ctx.component}:grid-differs-from-that-of-a-new-model-with-the-same-measure:{ctx.dcls}",
+                          f"grid from the re-used model vs grid from a new model object in the same state: {d}",
+                          {"reused": [a.tolist() for a in snap["axes"]], "new": [a.tolist() for a in fsnap["axes"]]}))
+    else:
+        found.append((f"C13:fresh:{ctx.component}:constructor-accepts-the-reused-model-and-raises-for-a-new-one:{ctx.dcls}",
+                      f"a new model object in the same state: {fsnap}", None))
+    for key, what, det in found:
+        sh.violation(_hist_key(key, mut), what, dict(detail, detail=det))
+    sh.count("history_grids_checked")
+    return grid
+
+
+def _sub_mhist(sh, case):
+    import itertools
+
+    muts, kinds = _hist_menus(case)
+    steps = [(m, k) for m in muts for k in kinds]
+    memo, fresh_memo = {}, {}
+    nwords = 0
+    outcomes = []
+    sh.cls("history-on-one-model-object")
+    for tail in itertools.product(steps, repeat=case["depth"] - 1):
+        word = [("new", case["first"])] + list(tail)
+        hs = _Hist(case)
+        nwords += 1
+        ok = True
+        for i, (mut, kind) in enumerate(word):
+            if not hs.apply(mut):
+                sh.count("history_cut_short_no_previous_grid")
+                ok = False
+                break
+            sh.cls(f"history-mutation:{mut}")
+            if mut == "other-object":
+                # a SECOND model object of the same class with other parameters is used in between (same h, p, constructor)
+                n = len(hs.version)
+                other = _model_of(case, alt=["donor"] * n)
+                _hist_step(sh, case, hs, other, [(k, "donor", ()) for k in range(n)], None,
+                           lambda: _model_of(case, alt=["donor"] * n), kind, "other-object-itself", word[: i + 1], memo, fresh_memo)
+            if mut == "other-h":
+                # the SAME model object is used for a grid with another step in between (same p, constructor)
+                _hist_step(sh, dict(case, h=case["h"] / 2), hs, hs.model, hs.keys(), hs.splits(), hs.fresh, kind,
+                           "other-h-itself", word[: i + 1], memo, fresh_memo)
+            grid = _hist_step(sh, case, hs, hs.model, hs.keys(), hs.splits(), hs.fresh, kind, mut, word[: i + 1], memo, fresh_memo)
+            hs.prev = grid
+            sh.transitions += 1 if i else 0
+            sh.states += 1
+        if ok:
+            outcomes.append([float(x) for t in (hs.prev.truncations if hs.prev is not None else []) for x in t])
+    sh.traces += nwords
+    sh.count("history_words", nwords)
+    sh.nontriv()
+    sh.outcome(("mhist", case["first"], case["dim"], outcomes[:40]))
 
 
 def _safe_indices(coord):
@@ -738,6 +1327,8 @@ def _sub_time(sh, case):
     cls = {"TimeGrid": TimeGrid, "Uniform1DGrid": Uniform1DGrid}[case["cls"]]
     start, end, num = case["start"], case["end"], case["num"]
     tg = cls(start, end, num)
+    other = cls(start + 0.25, end + 1.0, num + 3)   # a second object of the class, built and read in between
+    _ = [other[i] for i in range(len(other))]
     ax = np.array([tg[i] for i in range(len(tg))], dtype=float)
     sh.count("evaluations")
     sh.cls(f"constructor:{case['cls']}")
@@ -753,5 +1344,12 @@ def _sub_time(sh, case):
     if (float(getattr(tg, "start", start)), float(getattr(tg, "end", end))) != (float(ax[0]), float(ax[-1])):
         sh.violation(f"C13:time:{name}:reported-start-end-differ-from-end-points",
                      f"reports ({tg.start!r}, {tg.end!r}), axis ({ax[0]!r}, {ax[-1]!r})", None)
+    if getattr(tg, "num", num) != num:
+        sh.violation(f"C13:time:{name}:reported-num-differs", f"{name}({start},{end},{num}).num = {tg.num!r}", None)
+    step = getattr(tg, "step", None)
+    if step is not None and np.all(np.isfinite(ax)) and ax.size == num \
+            and not np.allclose(np.diff(ax), step, rtol=1e-9, atol=1e-15):
+        sh.violation(f"C13:time:{name}:reported-step-differs-from-the-gaps",
+                     f"{name}({start},{end},{num}).step = {step!r}, gaps {np.diff(ax).tolist()[:4]}", None)
     sh.outcome((name, ax.tolist()[:6], num))
     sh.nontriv()
